@@ -3,7 +3,7 @@ from . import front, contracts, harness
 from .interp import Incomplete, Sink
 from .ir import IRError
 from .specs.base_spec import NoSpec
-from .poly import Poly, FV, as_poly
+from .poly import Poly, FV, as_poly, P
 import re as _re
 
 
@@ -54,19 +54,62 @@ def check_overload(rep, mod, cfg, name, specfn, alias=None, extents_fn=None, sam
     except (Incomplete, NoSpec) as e:
         rep.incomplete('value:' + tag, 'wrapper-value', site, str(e))
         return
+    try:
+        for dec, eff, values, atom_subst in explore_paths(mod, name, summ, ctx, params0, alias=alias, extents=ext):
+            ptag = tag + ('' if not dec else ' path[' + ','.join(
+                ('%s%s%d' % (k[0], '==' if v else '!=', k[1])) if k[0] != 'res' else ('(%s)%s0' % (v[1], '==' if v[0] else '!='))
+                for k, v in sorted(dec.items(), key=str)) + ']')
+            _compare(rep, mod, cfg, name, dem, ptag, site, specfn, eff, ctx, values, alias, sample, atom_subst)
+    except (Incomplete, IRError, NoSpec) as e:
+        rep.incomplete('value:' + tag, 'wrapper-value', site, str(e))
+    except Sink as e:
+        rep.refute('safety:' + tag, 'wrapper-safety', sink_site(e, site), '%s (in %s)' % (e, ' <- '.join(e.stack[:3])))
+
+
+def explore_paths(mod, name, summ, ctx, params0, alias=None, extents=None, elem=None, values0=None, opts0=None, maxpaths=16):
+    """interpret a routine along every path over (a) equality tests of scalar shape parameters against constants and
+    (b) residue tests on field data (comparisons of canonical values); yields (decisions, effect, shape values, atom substitution)"""
     scalars = {p.name for p in params0 if p.irty[0] == 'i' and p.dty != 'E'}
     work = [{}]
     npaths = 0
     while work:
         dec = work.pop()
         npaths += 1
-        if npaths > 16:
-            rep.incomplete('value:' + tag, 'wrapper-value', site, 'more than 16 shape-dependent paths')
-            return
-        values = {k[0]: k[1] for k, v in dec.items() if v}
+        if npaths > maxpaths:
+            raise Incomplete('more than %d shape- or residue-dependent paths' % maxpaths)
+        values = dict(values0 or {})
+        values.update({k[0]: k[1] for k, v in dec.items() if k[0] != 'res' and v})
+        atom_subst = {}
+        for k, v in dec.items():
+            if k[0] == 'res' and v[0]:
+                nf = v[1]
+                ms = [m for m in nf.d if m != ()]
+                if len(ms) == 1 and len(ms[0]) == 1 and ms[0][0][1] == 1 and nf.d[ms[0]] in (1, P - 1):
+                    k0 = nf.d.get((), 0)
+                    atom_subst[ms[0][0][0]] = Poly.const((-k0 if nf.d[ms[0]] == 1 else k0) % P)
+                else:
+                    raise Incomplete('the routine branches on a residue test that does not pin a single operand cell (%s = 0)' % nf)
 
         def decide(pred, a, b, dec=dec):
             d = as_poly(a) - as_poly(b)
+            cv = [v for v in d.vars() if v in ctx.canon]
+            if cv and pred in ('eq', 'ne') and all(v in ctx.canon for v in d.vars()):
+                nf = Poly()
+                for m, c in d.d.items():
+                    if m == ():
+                        nf = nf + c
+                    elif len(m) == 1 and m[0][1] == 1 and c in (1, -1):
+                        nf = nf + ctx.canon[m[0][0]] * c
+                    else:
+                        return None
+                nf = nf.modp()
+                key = ('res', nf.key())
+                nkey = ('res', (-nf).modp().key())
+                if key in dec:
+                    return dec[key][0] if pred == 'eq' else (not dec[key][0])
+                if nkey in dec:
+                    return dec[nkey][0] if pred == 'eq' else (not dec[nkey][0])
+                raise _NeedDecision(key, nf)
             if pred not in ('eq', 'ne') or len(d.d) > 2:
                 return None
             sym = [m for m in d.d if m != ()]
@@ -81,28 +124,25 @@ def check_overload(rep, mod, cfg, name, specfn, alias=None, extents_fn=None, sam
                 raise _NeedDecision(key)
             return dec[key] if pred == 'eq' else (not dec[key])
         ctx.violations.clear()
+        ctx.symbolic_canon = True
+        opts = dict(opts0 or {})
+        opts['decide'] = decide
         try:
-            eff = harness.run_routine(mod, name, summ, alias=alias, extents=ext, values=values, opts={'decide': decide})
+            eff = harness.run_routine(mod, name, summ, alias=alias, extents=extents, values=values, opts=opts, elem=elem)
         except _NeedDecision as nd:
             for v in (True, False):
                 d2 = dict(dec)
-                d2[nd.key] = v
+                d2[nd.key] = (v, nd.nf) if nd.nf is not None else v
                 work.append(d2)
             continue
-        except (Incomplete, IRError, NoSpec) as e:
-            rep.incomplete('value:' + tag, 'wrapper-value', site, str(e))
-            return
-        except Sink as e:
-            rep.refute('safety:' + tag, 'wrapper-safety', sink_site(e, site), '%s (in %s)' % (e, ' <- '.join(e.stack[:3])))
-            return
-        ptag = tag + ('' if not dec else ' path[' + ','.join('%s%s%d' % (k[0], '==' if v else '!=', k[1]) for k, v in sorted(dec.items())) + ']')
-        _compare(rep, mod, cfg, name, dem, ptag, site, specfn, eff, ctx, values, alias, sample)
+        yield dec, eff, values, atom_subst
 
 
 class _NeedDecision(Exception):
-    def __init__(s, key):
+    def __init__(s, key, nf=None):
         Exception.__init__(s, str(key))
         s.key = key
+        s.nf = nf
 
 
 def _subst_key(k, mp):
@@ -114,7 +154,7 @@ def _subst_key(k, mp):
     return (reg, off)
 
 
-def _compare(rep, mod, cfg, name, dem, tag, site, specfn, eff, ctx, values, alias, sample):
+def _compare(rep, mod, cfg, name, dem, tag, site, specfn, eff, ctx, values, alias, sample, atom_subst=None):
     try:
         exp_w, exp_r, subst, desc = specfn(dem, eff.params)
     except NoSpec as e:
@@ -136,6 +176,8 @@ def _compare(rep, mod, cfg, name, dem, tag, site, specfn, eff, ctx, values, alia
             return out.modp()
         exp_w = {_subst_key(k, mp): sub_poly(v) for k, v in exp_w.items()}
         exp_r = {_subst_key(k, mp) for k in exp_r}
+    if atom_subst:
+        exp_w = {k: v.subst(atom_subst).modp() for k, v in exp_w.items()}
     got = {}
     for k, v in eff.writes.items():
         if isinstance(v, int):
@@ -146,6 +188,8 @@ def _compare(rep, mod, cfg, name, dem, tag, site, specfn, eff, ctx, values, alia
         nf = v.nf
         if subst and (nf.vars() & set(subst)):
             nf = nf.subst(subst).modp()
+        if atom_subst and (nf.vars() & set(atom_subst)):
+            nf = nf.subst(atom_subst).modp()
         got[k] = nf
     bad = []
     for k in sorted(set(got) | set(exp_w), key=str):
